@@ -789,9 +789,13 @@ def _parser_pop(ctx: "Wtp", warn_unclosed: bool) -> None:
     node = ctx.parser_stack[-1]
 
     # Attribute values may still hold magic characters standing for
-    # unexpanded templates, arguments or links; expand them back to text
+    # unexpanded templates, arguments or links, or for <nowiki />; expand
+    # them back to text
     for attr_name, attr_value in node.attrs.items():
-        if isinstance(attr_value, str) and MAGIC_RE_PATTERN.search(attr_value):
+        if isinstance(attr_value, str) and (
+            MAGIC_RE_PATTERN.search(attr_value)
+            or MAGIC_NOWIKI_CHAR in attr_value
+        ):
             node.attrs[attr_name] = ctx._finalize_expand(attr_value)
 
     # Warn about unclosed syntaxes.
